@@ -273,3 +273,4 @@ MANIFEST = {
     'note': 'Trusted: reference model; reading of "most generous"/"most greedy" as the '
             'lexicographic orders used by the documented criteria.',
 }
+MANIFEST['text'] += (' ' + 'An exhaustive sweep covers two students with two usable projects each at every pair of ranks up to 6/7, every clash pattern and three id layouts; shapes: contention (capacity-one projects), long lists with few students, ids >= 10, capacities exactly filled by first choices under heavy ties.')
